@@ -32,7 +32,24 @@ def base_event(op, data, out, before):
 def make_data(rng, n, ncols, frame, classes=(0.0, 1.0, 2.0)):
     a = np.array([[float(rng.randint(-5, 9)) for _ in range(ncols - 1)] + [rng.choice(classes)] for _ in range(n)], dtype=float).reshape(n, ncols)
     names = ["f%d" % i for i in range(ncols - 1)] + ["y"]
-    return (pd.DataFrame(a, columns=names) if frame else a), names
+    if frame:
+        # how the columns of a DataFrame may be labelled: strings, pandas' default RangeIndex, a RangeIndex that does not start at 0 or has a
+        # step, plain integer labels in arbitrary order - the column ARGUMENT is always a label, never a position
+        style = rng.choice(["str", "str", "range0", "range1", "rangestep", "ints"])
+        if style == "range0":
+            df = pd.DataFrame(a)
+        elif style == "range1":
+            df = pd.DataFrame(a, columns=range(1, ncols + 1))
+        elif style == "rangestep":
+            df = pd.DataFrame(a, columns=range(3, 3 + 2 * ncols, 2))
+        elif style == "ints":
+            lab = list(range(ncols))
+            rng.shuffle(lab)
+            df = pd.DataFrame(a, columns=[10 * v + 7 for v in lab])
+        else:
+            df = pd.DataFrame(a, columns=names)
+        return df, list(df.columns)
+    return a, names
 
 
 def colarg(frame, names, pos):
@@ -122,7 +139,7 @@ def call(rng, kind, n, ncols, frame, window=None, seed=0, pool=None):
         size = max(size, len(keys))
         out = I.FeatureCoverInjector()(data, colarg(frame, names, ycol), size, random_state=seed % 1000)
         e = base_event(kind, data, out, before)
-        e.update(c1=ycol, size=size, keys=[num(k) for k in keys], colsexp=[c for c in labels(data) if c != "y"])
+        e.update(c1=ycol, size=size, keys=[num(k) for k in keys], colsexp=[c for c in labels(data) if c != str(names[ycol - 1])])
     else:
         raise KeyError(kind)
     e.update({"from": f, "to": t})
